@@ -169,7 +169,10 @@ type runner struct {
 	sawDup, sawGap, sawHole, sawReset, sawCompressed, sawMislabel, sawAck, sawNackAnswered, sawFail bool
 	sawSplitOp                                                                                      bool
 	nMsgs, nErrs                                                                                    int
+	partialCause                                                                                    string
 }
+
+var sharedComp *replication.CompressionManager
 
 func codecOf(enc string) pb.CompressionCodec {
 	switch enc {
@@ -212,21 +215,23 @@ func newRunner(h *history, c *Case) (*runner, error) {
 	rep.VerifSetClient(r.cl)
 	r.rep = rep
 	r.ap.rep = rep
-	cm, err := replication.NewCompressionManager()
-	if err != nil {
-		r.close()
-		return nil, err
+	if sharedComp == nil {
+		// one encoder for the whole process: a zstd encoder allocates its
+		// window on first use, which would dominate the cost of a case
+		cm, err := replication.NewCompressionManager()
+		if err != nil {
+			r.close()
+			return nil, err
+		}
+		sharedComp = cm
 	}
-	r.comp = cm
+	r.comp = sharedComp
 	return r, nil
 }
 
 func (r *runner) close() {
 	if r.rep != nil {
 		_ = r.rep.Stop()
-	}
-	if r.comp != nil {
-		_ = r.comp.Close()
 	}
 	if r.repEng != nil {
 		_ = r.repEng.Close()
@@ -319,6 +324,7 @@ func (r *runner) deliver(i int, m *Msg) (nack uint64, v *violation, err error) {
 		}
 	}
 	expected := r.rep.VerifExpectedNext()
+	hasHole, hasRep := false, false
 	ctx := "empty"
 	detail := m.Src
 	if m.Ack {
@@ -348,9 +354,11 @@ func (r *runner) deliver(i int, m *Msg) (nack uint64, v *violation, err error) {
 		if hole {
 			r.sawHole = true
 			ctx += "+hole"
+			hasHole = true
 		}
 		if rep {
 			ctx += "+txgroup"
+			hasRep = true
 		}
 		// does the message end inside a write operation?
 		last := resp.Entries[len(resp.Entries)-1].SequenceNumber
@@ -377,6 +385,25 @@ func (r *runner) deliver(i int, m *Msg) (nack uint64, v *violation, err error) {
 	if m.FailAt > 0 {
 		ctx += "+applyerror"
 	}
+	// a message that follows one the replica applied only in part gets that
+	// fact into its context (the damage usually shows at the retransmission)
+	if r.partialCause != "" {
+		if expected > r.o.maxApplied {
+			r.partialCause = ""
+		} else {
+			ctx += "+after-partly-applied-message(" + r.partialCause + ")"
+		}
+	}
+	msgCause := "plain"
+	switch {
+	case m.FailAt > 0:
+		msgCause = "applyerror"
+	case hasHole:
+		msgCause = "hole"
+	case hasRep:
+		msgCause = "txgroup"
+	}
+	appliedBefore := r.o.applied
 	r.ap.ctx, r.ap.at, r.ap.nInMsg, r.ap.failAt, r.ap.detail = ctx, i, 0, m.FailAt, detail
 	nBefore := len(r.cl.nacks)
 	failedBefore := r.ap.failed
@@ -393,6 +420,10 @@ func (r *runner) deliver(i int, m *Msg) (nack uint64, v *violation, err error) {
 	}
 	if r.ap.failed > failedBefore {
 		r.sawFail = true
+	}
+	if perr != nil && r.o.applied > appliedBefore && r.rep.VerifExpectedNext() <= r.o.maxApplied {
+		r.partialCause = msgCause
+		ev.R().Count("messages_applied_in_part", 1)
 	}
 	if r.ap.viol != nil {
 		r.ap.viol.Detail = detail
